@@ -1,6 +1,11 @@
 # Human-written level texts per claimed property (used by tools/gen_manifest.py).
 HOOK_COMMITS = []
 META = {
+    "C13": {
+        "text": "Bounded model checking of the real snapshot writer and reader: shapes enumerated, and — for the framing — every encoded document's byte length a symbolic integer up to 1 MiB, so the solver decides whether some payload size makes SaveSnapshot succeed while LoadFromSnapshot fails (the 16-bit length prefix), and whether GetQueue can index out of range.",
+        "design_ref": "DESIGN.md §2 C13",
+        "note": "Trusted: gosym incl. its rope-bytes model (symbolic segment lengths, alignment queries), in-memory Unixfs. Bounds: T<=3 entries (shapes) / 2 (sizes), lengths in [2, 2^20].",
+    },
     "C18": {
         "text": "Bounded model checking of shutdown on the real code: the moment of Close is a path decision over every visible operation of a write, a replication or a load; the interpreter owns all goroutines started by the store, so 'no background activity left' and 'later operations return' are decided from the thread table at quiescence, not from time-outs. Drop/instance Close run on a real orbitDB instance over a disk model.",
         "design_ref": "DESIGN.md §2 C18",
